@@ -319,8 +319,78 @@ func checkGeneratedModes(c *Ctx, r *Report) {
 	r.Floor("S4-const", n, 5)
 }
 
+// checkScriptTableDeletes (S2-delete): once a slot is bound to its script a
+// row may be taken out of the table again only because that same script is
+// not configured (emptiness of the row's own value): a row removed for any
+// other reason - an empty file, another slot being unset - leaves a
+// configured script out of the package.
+func checkScriptTableDeletes(c *Ctx, r *Report, pa *provAnalysis) {
+	n := 0
+	for _, pk := range c.Packagers {
+		if pk.Format == "" {
+			continue
+		}
+		for _, fn := range sortedFuncs(c, c.Reach(pk.Package)) {
+			if c.funcPkgPath(fn) != pk.PkgPath {
+				continue
+			}
+			// script tables: maps that receive a script path under a constant key
+			tables := map[ssa.Value]bool{}
+			forEachInstr(fn, func(in ssa.Instruction) {
+				if mu, ok := in.(*ssa.MapUpdate); ok {
+					if _, isK := mu.Key.(*ssa.Const); isK && len(scriptAtoms(pa.Of(mu.Value))) > 0 {
+						tables[mu.Map] = true
+					}
+				}
+			})
+			if len(tables) == 0 {
+				continue
+			}
+			k := 0
+			forEachInstr(fn, func(in ssa.Instruction) {
+				call, ok := in.(*ssa.Call)
+				if !ok {
+					return
+				}
+				b, isB := call.Call.Value.(*ssa.Builtin)
+				if !isB || b.Name() != "delete" || !tables[call.Call.Args[0]] {
+					return
+				}
+				n++
+				k++
+				okD := false
+				// the delete hangs under an emptiness test of the value that
+				// belongs to the deleted key (the range value of the same loop)
+				if id := call.Block().Idom(); id != nil && len(call.Block().Preds) == 1 {
+					if ifi, isIf := id.Instrs[len(id.Instrs)-1].(*ssa.If); isIf && isStringEmptinessTest(ifi.Cond) {
+						cmp := ifi.Cond.(*ssa.BinOp)
+						var tested ssa.Value = cmp.X
+						if _, isK := tested.(*ssa.Const); isK {
+							tested = cmp.Y
+						}
+						if ex, isEx := tested.(*ssa.Extract); isEx && ex.Index == 2 {
+							if kx, isKx := call.Call.Args[1].(*ssa.Extract); isKx && kx.Tuple == ex.Tuple && kx.Index == 1 {
+								okD = true
+							}
+						}
+					}
+				}
+				r.Check(okD, "S2-delete", fmt.Sprintf("%s: delete#%d from the script table in %s", pk.Format, k, c.funcKey(fn)), c.instrPos(call),
+					"a row is removed from the script table for a reason other than its own script being unconfigured: a configured script would be missing from the package")
+			})
+		}
+	}
+	r.Count("script_table_deletes", n)
+}
+
 func checkC09(c *Ctx, r *Report) {
 	checkGeneratedModes(c, r)
+	checkScriptTableDeletes(c, r, newProv(c))
+	// script paths reach their readers as configured (rule E5 of C06): an
+	// expansion step that rewrites them can cross-wire or blank a slot
+	r.Floor("ref-E5", importRules(c, r, checkC06, "ref-", []string{"E5"}, func(o Obligation) bool {
+		return strings.Contains(o.Construct, "Scripts.")
+	}), 8)
 	r.Rules = []string{"S1 slot<->field table per format equals the statement's", "S2 each slot guarded by non-emptiness of its own field", "S3 bytes flow unmodified from the file read to the slot", "S4 mode constants", "S5 rpmpack scriptlet tags (thorough)", "S6 script buffers are fresh", "S7 a configured script must-reaches its slot", "S4-const modes of generated members depend on no configuration value"}
 	r.Explanation = "Table extraction and field provenance over go/ssa. For every packager the places where a script-path field of the configuration is bound to a slot name are extracted (constant-keyed map updates, struct-literal rows, rpmpack Add* calls) and the resulting (slot, field) relation is compared with the table transcribed from the statement — equality, so a missing, extra or cross-wired slot is a violation and every one of the 15 script fields is accounted for in exactly the formats that own it. Each consumer (the read of the script file) must be dominated by a non-emptiness test of a value with the same script-field provenance (populated iff configured). The bytes that reach the archive writer or the rpmpack slot derive from the file read through conversions only — any other function on that path is a violation. Lifecycle script modes are the stated constants. All subsets of configured scripts are covered because each slot is decided independently of the others."
 	r.Explanation += " (S6) buffers that receive script bytes are fresh or reset. (S7) with only one script configured its slot binding is must-reached from Package. (S4-const) the mode of every member a packager generates itself has no configuration atom in its provenance."
